@@ -18,7 +18,7 @@ import (
 func init() {
 	Extend("C14", runC14Extra,
 		Mutant{Name: "seed-C14a-bytes-reader-keeps-old-value-for-empty-string", File: "internal/vkgo/basictl/basictl.go", Rule: "C14-R5",
-			Old: "	} else {\n		*dst = (*dst)[:0]\n	}\n	return r[p+l:], nil\n}\n\nfunc StringReadBytes", New: "	}\n	return r[p+l:], nil\n}\n\nfunc StringReadBytes"},
+			Old: "	} else {\n		*dst = (*dst)[:0]\n	}\n", New: "	}\n"},
 		Mutant{Name: "seed-C14b-equal-length-block-kept-compressed", File: "internal/compress/lz4.go", Rule: "C14-R6",
 			Old: "	if compressedSize >= len(originaldata) {", New: "	if compressedSize > len(originaldata) {"})
 	Extend("C31", runC31Extra,
